@@ -3,16 +3,55 @@
   (`Gen.rrsHandle`, `Gen.rrsLineValue`, `Gen.rrsStepPair`, `Gen.rrsParseRule`) equals the model's part parser.
 -/
 import DateutilVerif.Generated.RRuleStrKernels
+import DateutilVerif.Proofs.RRuleStrGen
+import DateutilVerif.Proofs.RRuleStrGenWDay
 
 namespace RRuleStr
 
 theorem freqMap_eq_gen : Gen.FREQ_MAP.map (fun p => (p.1.toList, p.2)) = freqMap := by decide
 theorem weekdayMap_eq_gen : Gen.WEEKDAY_MAP.map (fun p => (p.1.toList, p.2)) = weekdayMap := by decide
 
+theorem getL_zero {α} (a : α) (l : List α) : StrPy.getL (a :: l) 0 = .ok a := by
+  have := getL_append ([] : List α) a l
+  simpa using this
+
+theorem getL_one {α} (a b : α) (l : List α) : StrPy.getL (a :: b :: l) 1 = .ok b := by
+  have := getL_append [a] b l
+  simpa using this
+
+/-- **the translated item splitter of `_handle_BYWEEKDAY` is the model's `parseWDay`**, for every text: `WD(n)` (the split at `(`
+    has at least two parts, so `splt[0]` / `splt[1]` never raise), `nWD` / `WD` through the `for … break` scan, the empty item -/
+theorem gen_wday_eq (w : List Char) : Gen.rrsWDay w = parseWDay w := by
+  unfold Gen.rrsWDay parseWDay
+  rw [weekdayMap_eq_gen]
+  by_cases hp : w.contains '(' = true
+  · obtain ⟨a, b, rest, hs⟩ := splitOnChar_two_parts '(' w ((contains_iff w '(').1 hp)
+    simp only [hp, if_true, hs, getL_zero, getL_one, bind, Except.bind, List.headD_cons, List.getD_cons_succ, List.getD_cons_zero]
+    cases h1 : ICal.pyInt b.dropLast <;> cases h2 : lookup weekdayMap a <;> simp [int!, h1, weekdayCall]
+  · have hp' : w.contains '(' = false := by simpa using hp
+    cases w with
+    | nil => simp
+    | cons c cs =>
+      have hf : (fun ch => ['+', '-', '0', '1', '2', '3', '4', '5', '6', '7', '8', '9'].contains ch) = isSignDigit := by
+        funext ch; exact signDigit_chars ch
+      simp only [hp', Bool.false_eq_true, if_false, hf, forBreakIdx_eq, Nat.zero_add]
+      have hne : ((c :: cs).length != 0) = true := by simp
+      have hemp : (c :: cs).isEmpty = false := rfl
+      simp only [hne, if_true, hemp, Bool.false_eq_true, if_false]
+      generalize (if ((c :: cs).takeWhile isSignDigit).length == (c :: cs).length then (c :: cs).length - 1
+        else ((c :: cs).takeWhile isSignDigit).length) = i
+      by_cases he : ((c :: cs).take i).isEmpty = true
+      · simp only [he, if_true, bind, Except.bind]
+        cases lookup weekdayMap ((c :: cs).drop i) <;> simp [weekdayCall]
+      · have he' : ((c :: cs).take i).isEmpty = false := by simpa using he
+        simp only [he', Bool.false_eq_true, if_false, bind, Except.bind]
+        cases h1 : ICal.pyInt ((c :: cs).take i) <;> cases h2 : lookup weekdayMap ((c :: cs).drop i) <;> simp [int!, h1, weekdayCall]
+
 /-- the handler dispatch resolved against the class body = the model's `handleU` -/
 theorem gen_handle_eq (po : ParseOpts) (name value : List Char) : Gen.rrsHandle po name value = handleU po name value := by
+  have hw : Gen.rrsWDay = parseWDay := by funext w; exact gen_wday_eq w
   unfold Gen.rrsHandle handleU
-  rw [freqMap_eq_gen, weekdayMap_eq_gen]
+  rw [freqMap_eq_gen, weekdayMap_eq_gen, hw]
   simp only [intList]
   by_cases h1 : name == lit "BYWEEKDAY" <;> by_cases h2 : name == lit "BYDAY" <;> simp [h1, h2] <;> rfl
 
@@ -45,7 +84,9 @@ theorem parseWDay_errIn (w : List Char) : ErrIn (parseWDay w) := by
 
 theorem handleU_errIn (po : ParseOpts) (name value : List Char) : ErrIn (handleU po name value) := by
   rw [← gen_handle_eq]
+  have hwd : Gen.rrsWDay = parseWDay := by funext w; exact gen_wday_eq w
   unfold Gen.rrsHandle
+  rw [hwd]
   have hi : ∀ (mk : Int → Update), ErrIn (int! value >>= fun v => (.ok (mk v) : Py.R Update)) :=
     fun mk => errIn_bind (int!_errIn value) (fun _ => errIn_ok _)
   have hl : ∀ (mk : List Int → Update), ErrIn (((ICal.splitOnChar ',' value).mapM int!) >>= fun l => (.ok (mk l) : Py.R Update)) :=
